@@ -331,11 +331,20 @@ func (x *fnv) evalUnary(s *State, e *ast.UnaryExpr) Value {
 			v := x.evalCompositeLit(s, in)
 			r := x.h.alloc(s, "obj")
 			x.h.StorePtr(s, v.T, r, v)
+			x.initMutexes(s, v.T, r)
 			return Value{T: x.typeOf(e), Term: r}
 		case *ast.Ident:
 			o := x.info.ObjectOf(in)
 			if x.boxedVar[o] {
 				return Value{T: x.typeOf(e), Term: s.vars[o].Term}
+			}
+		}
+		// &x.mu for a mutex field: the address of the mutex (only Lock/Unlock go through it)
+		if se, ok := ast.Unparen(e.X).(*ast.SelectorExpr); ok && isMutexType(x.typeOf(se)) {
+			owner := x.eval(s, se.X)
+			if pt, ok := owner.T.Underlying().(*types.Pointer); ok {
+				x.safe(s, "nil", c.Not(c.Eq(owner.Term, c.Int(0))), e.Pos())
+				return Value{T: x.typeOf(e), Term: x.muAddr(s, pt.Elem(), se.Sel.Name, owner.Term)}
 			}
 		}
 		// &s[i]: an interior pointer into a slice cell. It is represented by an injective address term;
@@ -363,7 +372,7 @@ func (x *fnv) evalUnary(s *State, e *ast.UnaryExpr) Value {
 		return x.eval(s, e.X)
 	case token.ARROW:
 		ch := x.eval(s, e.X)
-		return x.chanRecv(s, ch, e.Pos())
+		return x.chanRecv(s, ch, e.Pos(), types.ExprString(e.X))
 	}
 	panic(unsupported("unary operator %s", e.Op))
 }
@@ -753,3 +762,18 @@ func (x *fnv) derefLoc(elem types.Type, ref *Term) loc {
 }
 
 var _ = fmt.Sprintf
+
+// initMutexes: the mutex fields of a freshly allocated struct are unlocked (the zero Mutex).
+func (x *fnv) initMutexes(s *State, T types.Type, r *Term) {
+	st, ok := T.Underlying().(*types.Struct)
+	if !ok {
+		return
+	}
+	for i := 0; i < st.NumFields(); i++ {
+		f := st.Field(i)
+		if isMutexType(f.Type()) {
+			m := x.h.region(s, lockRegionName, 1, SBool)
+			s.mem[lockRegionName] = x.c.Store(m, x.muAddr(s, T, f.Name(), r), nil, x.c.False())
+		}
+	}
+}
